@@ -1,5 +1,5 @@
 """development unit: rle_16_decompress alone (the same Fn object is part of unit codec)"""
 from vx.spec import *
-from specs.rle16_fn import RLE16
-UNIT = Unit("codec16", ["base.rs"], [RLE16])
+from specs.rle16_fn import RLE16, RLE16_SPECS
+UNIT = Unit("codec16", ["base.rs"], [RLE16_SPECS, RLE16])
 UNIT.dev = True
